@@ -37,6 +37,7 @@ type Config struct {
 	Probe    *ProbeCfg `json:"probe,omitempty"`
 	Program  *Program  `json:"program,omitempty"` // replay: the program to run sequentially
 	Conc     *ConcCfg  `json:"conc,omitempty"`
+	Crash    *CrashCfg `json:"crash,omitempty"`
 	BackendOut string  `json:"backend_out,omitempty"` // also record the backend-call trace (SopCommitTrace)
 }
 
@@ -61,6 +62,12 @@ func main() {
 		runFault(cfg)
 	case "replay":
 		runReplay(cfg)
+	case "crash":
+		runCrash(cfg)
+	case "crashchild":
+		runCrashChild(cfg)
+	case "recover":
+		runRecoverChild(cfg)
 	case "conc":
 		runConc(cfg)
 	case "sweep":
